@@ -16,4 +16,4 @@ require (
 	golang.org/x/sys v0.38.0 // indirect
 )
 
-replace github.com/itchyny/gojq => /tmp/seedtest-n7r0d82z/repo
+replace github.com/itchyny/gojq => /tmp/seedtest-defsgod1/repo
